@@ -26,7 +26,7 @@ from .asttypes import (
 
 from .astutil import bistr
 
-from .common import NodeError, astfield
+from .common import NodeError, astfield, re_empty_line_cont_or_comment, re_empty_line_or_cont
 
 from .parsex import Mode, parse_ExceptHandler, parse_match_case
 from .code import Code, _code_as_lines
@@ -88,6 +88,23 @@ def _reparse_raw_base(
 
         if not copy:
             raise NodeError('could not find node after reparse')  # the node was commented out or deleted altogether
+
+        if mode is None:  # statementlike reparsed alone in a wrapper, only valid if the source still is exactly one node of the same kind at the same place, otherwise the change reached past the node (split, merged, reindented) and only the whole source can tell
+            f = copy
+
+            while f and not ((nxt := f.next()) and not (first_lineno == 1 and f is copy and nxt.pfield.name == 'finalbody')):  # that is our own `finally: pass`
+                f = f.parent
+
+            copy_loc = copy.loc
+
+            if (f
+                or (copya := copy.a).__class__ is not self.a.__class__
+                or copy_loc[:2] != self.loc[:2]
+                or not (re_empty_line_or_cont if root._lines[(bloc := self.bloc).end_ln][bloc.end_col:].strip() else
+                        re_empty_line_cont_or_comment).match(copy_root._lines[copy_loc.end_ln], copy_loc.end_col)  # e.g. a new trailing semicolon which would belong to the parents, or a new comment which would swallow what follows the node on its line
+                or (copya.__class__ is ExceptHandler and (parent := self.parent) and copy.parent.a.__class__ is not parent.a.__class__)  # `except` <-> `except*`, the other handlers have a say in that
+            ):
+                raise NodeError('source change not limited to node')
 
         root._put_src(new_lines, ln, col, end_ln, end_col, True, True, self if set_ast else None)  # we do this again in our own tree to offset our nodes which aren't being moved over from the modified copy, can exclude self if setting ast because it overrides self locations
 
